@@ -710,6 +710,14 @@ func (fr *Frame) runSites(ins ssa.Instruction, when string, pc string, st *State
 		for g := range vc.ghostT {
 			env.vars[g] = tv{t: vc.stGet0(st, "$g."+g), ty: vc.ghostT[g]}
 		}
+		// named local values (by debug name) visible at this instruction
+		for name, v := range fr.namedValuesAtInstr(ins) {
+			if _, shadow := env.vars[name]; !shadow {
+				if _, lz := env.lazy[name]; !lz {
+					env.vars[name] = tv{t: fr.v1(v), ty: v.Type()}
+				}
+			}
+		}
 		// range indices of the enclosing loops: #i (innermost), #i<ordinal>
 		var inner *loopInfo
 		for _, l := range fr.loops {
@@ -746,6 +754,22 @@ func (fr *Frame) runSites(ins ssa.Instruction, when string, pc string, st *State
 				}
 			}
 			env.vars["argname0"] = tv{t: vc.d.strLit(an), ty: tString}
+			// which function literal is passed (by structural name), for higher-order calls such as Filtered(func...)
+			for i, a := range c.Args {
+				cn := ""
+				v := a
+				if ct, ok := v.(*ssa.ChangeType); ok {
+					v = ct.X
+				}
+				if mc, ok := v.(*ssa.MakeClosure); ok {
+					cn = shortKey(mc.Fn.(*ssa.Function).String())
+				} else if mc, ok := fr.closures[v]; ok {
+					cn = shortKey(mc.Fn.(*ssa.Function).String())
+				} else if f, ok := v.(*ssa.Function); ok {
+					cn = shortKey(f.String())
+				}
+				env.vars[fmt.Sprintf("argfunc%d", i)] = tv{t: vc.d.strLit(cn), ty: tString}
+			}
 			if c.IsInvoke() {
 				env.vars["recv"] = tv{t: fr.v1(c.Value), ty: c.Value.Type()}
 			}
@@ -833,7 +857,16 @@ func (fr *Frame) runSites(ins ssa.Instruction, when string, pc string, st *State
 					return pc
 				}
 				k := "$g." + a.Var
-				vc.stSet(st, k, ite(guard, t.t, vc.stGet0(st, k)))
+				nv := t.t
+				if a.Idx != nil {
+					it, err := env.expr(a.Idx)
+					if err != nil {
+						vc.failed = fmt.Errorf("%s: site %q: %v", vc.name, sa.Src, err)
+						return pc
+					}
+					nv = fmt.Sprintf("(store %s %s %s)", vc.stGet0(st, k), asPtr(it).t, t.t)
+				}
+				vc.stSet(st, k, ite(guard, nv, vc.stGet0(st, k)))
 			}
 		}
 	}
@@ -1009,4 +1042,37 @@ func (fr *Frame) debugName(v ssa.Value) string {
 		}
 	}
 	return name
+}
+
+// namedValuesAtInstr: source variable name -> the latest SSA value bound to it that dominates ins.
+func (fr *Frame) namedValuesAtInstr(ins ssa.Instruction) map[string]ssa.Value {
+	best := map[string]ssa.Instruction{}
+	out := map[string]ssa.Value{}
+	for _, b := range fr.fn.Blocks {
+		for _, x := range b.Instrs {
+			dr, ok := x.(*ssa.DebugRef)
+			if !ok || dr.IsAddr || dr.Object() == nil {
+				continue
+			}
+			if _, isVar := dr.Object().(*types.Var); !isVar {
+				continue
+			}
+			def, ok := dr.X.(ssa.Instruction)
+			if !ok {
+				continue
+			}
+			if _, seen := fr.vals[dr.X]; !seen {
+				continue
+			}
+			if def.Block() == nil || !instrDominates(def, ins) {
+				continue
+			}
+			name := dr.Object().Name()
+			if cur, ok := best[name]; !ok || instrDominates(cur, def) {
+				best[name] = def
+				out[name] = dr.X
+			}
+		}
+	}
+	return out
 }
